@@ -133,8 +133,8 @@ func (s *Sc) Init(wk *ksim.Worker) *ksim.World {
 	iw.FixHeaders(w)
 	e := &ext{FirstAddr: map[string]string{}, InitCtx: map[int]string{}}
 	w.Ext = e
-	l := w.SetupClients(iw.A, iw.B)
-	w.SetupConnection(l, 0)
+	// no identifier is the same on both ends: A has 07-tendermint-1 / connection-1 / channels from channel-2, B starts at 0
+	l := iw.SkewedLink(w, iw.A, iw.B)
 	mockChan := ""
 	if s.Attacks {
 		// a handshake started on the host chain that names a controller port as counterparty
@@ -669,13 +669,13 @@ func run(c *core.C) {
 			Sc: &Sc{Root: rootConn, Owners: []int{0}, Orders: []int{0, 1}, Encs: []int{0}, MaxRegs: regs, MaxSends: 1, Timeouts: []int{1}, Macro: true, Attacks: true}},
 		{Name: "handshake-race/encodings", Share: 0.25, Cfg: ksim.Config{MaxDepth: 10 + d},
 			Sc: &Sc{Root: rootConn, Owners: []int{0}, Orders: []int{0}, Encs: []int{0, 1}, MaxRegs: regs, MaxSends: 1, Timeouts: []int{1}, Macro: true}},
-		{Name: "handshake/two-owners+direct-init", Share: 0.3, Cfg: ksim.Config{MaxDepth: 9 + d/2},
+		{Name: "handshake/two-owners+direct-init", Share: 0.3, Cfg: ksim.Config{MaxDepth: 8 + d},
 			Sc: &Sc{Root: rootConn, Owners: []int{0, 1}, Orders: []int{0}, Encs: []int{0}, MaxRegs: 2, MaxSends: 2, Timeouts: []int{0}, Macro: true, DirectInit: true}},
 		{Name: "reopen-after-timeout", Share: 0.4, Cfg: ksim.Config{MaxDepth: 9 + d},
 			Sc: &Sc{Root: rootClosed, Owners: []int{0}, Orders: []int{0, 1}, Encs: []int{0, 1}, MaxRegs: regs, MaxSends: 1, Timeouts: []int{1}, Macro: true, DirectInit: true, Attacks: true}},
 		{Name: "open-channels/packets", Share: 0.6, Cfg: ksim.Config{MaxDepth: 8 + d},
 			Sc: &Sc{Root: rootOpen, Owners: []int{0, 1}, Orders: []int{0, 1}, Encs: []int{0}, MaxRegs: 1, MaxSends: 2, Timeouts: []int{0, 1}, Macro: true, Attacks: true}},
-		{Name: "micro/handshake+timeout", Cfg: ksim.Config{MaxDepth: 9 + d/2},
+		{Name: "micro/handshake+timeout", Cfg: ksim.Config{MaxDepth: 8 + d},
 			Sc: &Sc{Root: rootConn, Owners: []int{0}, Orders: []int{0}, Encs: []int{0}, MaxRegs: regs, MaxSends: 1, Timeouts: []int{1}, MaxCommits: 3, DupTry: true}},
 	}
 	ksim.RunParts(c, parts, [][]ksim.Op{
